@@ -124,6 +124,29 @@ static void registerRoutes(HttpServer &srv, bool defHandler)
   };
   srv.onGet("/s204/:tok", bodyless(204));
   srv.onGet("/s304/:tok", bodyless(304));
+  // "stale body": the handler builds a representation with set_content() and then ends with a
+  // status that cannot carry content (the build-then-downgrade-to-304 pattern of the project's own
+  // SR-18 test; a 204 after the body was filled in). Whatever the handler left in res.body, a
+  // 204/304 response and every response to HEAD must put no body bytes on the wire.
+  auto staleBody = [](const Request &req, Response &res)
+  {
+    std::string tok = qstr(req, "tok");
+    HGuard g(tok);
+    res.set_header("X-Token", tok);
+    vf::sleepMs(double(qnum(req, "ms", 0)));
+    res.set_content(mkBody(tok, size_t(qnum(req, "n", 0))), "text/plain");
+    res.status = int(qnum(req, "st", 304));
+  };
+  srv.onGet("/sb/:tok", staleBody);
+  srv.onPost("/sbp/:tok", staleBody);
+  // only the status is set: the response keeps whatever the dispatcher pre-filled
+  srv.onGet("/naive/:tok", [](const Request &req, Response &res)
+  {
+    std::string tok = qstr(req, "tok");
+    HGuard g(tok);
+    res.set_header("X-Token", tok);
+    res.status = int(qnum(req, "st", 204));
+  });
   if (defHandler)
   {
     srv.setDefaultHandler([](const Request &req, Response &res)
@@ -134,8 +157,8 @@ static void registerRoutes(HttpServer &srv, bool defHandler)
       HGuard g(tok);
       res.set_header("X-Token", tok);
       vf::sleepMs(double(qnum(req, "ms", 0)));
-      res.status = 404;
       res.set_content(mkBody(tok, 48), "text/plain");
+      res.status = int(qnum(req, "st", 404)); // 404, or a body-less status with the body left in place
     });
   }
 }
@@ -226,15 +249,33 @@ static Req genReq(vf::Rng &rng, const std::string &tok, bool pipelined, bool def
   else if (k < 93)
   {
     r.kind = "m405";
-    if (rng.chance(0.5)) { r.method = rng.chance(0.5) ? "POST" : "DELETE"; path = "/w/" + tok; }
+    if (!pipelined && rng.chance(0.5)) { r.method = "HEAD"; path = "/echo/" + tok; } // HEAD x 405 (token-less: sequential only)
+    else if (rng.chance(0.5)) { r.method = rng.chance(0.5) ? "POST" : "DELETE"; path = "/w/" + tok; }
     else { r.method = rng.chance(0.5) ? "GET" : "PUT"; path = "/echo/" + tok; }
   }
   else if (k < 98) { r.kind = "options"; r.method = "OPTIONS"; path = (rng.chance(0.5) ? "/w/" : "/echo/") + tok; }
   else { r.kind = "optstar"; r.method = "OPTIONS"; path = "*"; }
+  // (method x status x handler-body) combinations whose response must be body-less although the
+  // handler left a body in the response object
+  std::string st;
+  if (!pf.slow && rng.chance(0.10))
+  {
+    unsigned v = unsigned(rng.below(defHandler ? 8 : 6));
+    r.thr.clear();
+    if (v == 0) { r.kind = "sb204"; r.method = "GET"; path = "/sb/" + tok; st = "204"; }
+    else if (v == 1) { r.kind = "sb304"; r.method = "GET"; path = "/sb/" + tok; st = "304"; }
+    else if (v == 2) { r.kind = "sb204"; r.method = "HEAD"; path = "/sb/" + tok; st = "204"; }
+    else if (v == 3) { r.kind = "sb304"; r.method = "HEAD"; path = "/sb/" + tok; st = "304"; }
+    else if (v == 4) { r.kind = "sbp204"; r.method = "POST"; path = "/sbp/" + tok; st = "204"; }
+    else if (v == 5) { r.kind = "naive204"; r.method = rng.chance(0.5) ? "GET" : "HEAD"; path = "/naive/" + tok; st = "204"; }
+    else if (v == 6) { r.kind = "defsb304"; r.method = rng.chance(0.5) ? "GET" : "HEAD"; path = "/nope/" + tok; st = "304"; }
+    else { r.kind = "defsb204"; r.method = rng.chance(0.5) ? "GET" : "HEAD"; path = "/nope/" + tok; st = "204"; }
+    if (r.n < 24) r.n = 24 + size_t(rng.below(200));
+  }
 
   // HEAD variants. A HEAD response without a token (built-in 404, 405) can only be attributed by
   // position, so those are sent on sequential connections only.
-  if (r.method == "GET" && rng.chance(0.16))
+  if (st.empty() && r.method == "GET" && rng.chance(r.kind == "nope" ? 0.45 : 0.16))
   {
     bool tokenless = (r.kind == "m405") || (r.kind == "nope" && !defHandler);
     if (!tokenless || !pipelined) r.method = "HEAD";
@@ -253,6 +294,7 @@ static Req genReq(vf::Rng &rng, const std::string &tok, bool pipelined, bool def
   {
     q = "?ms=" + std::to_string(r.ms) + "&n=" + std::to_string(r.n);
     if (r.kind == "throw") q += "&t=" + r.thr;
+    if (!st.empty()) q += "&st=" + st;
   }
   r.raw = r.method + " " + path + q + " HTTP/1.1\r\nHost: c16\r\nX-Req: " + tok + "\r\n";
   if (!body.empty() || r.method == "POST" || r.method == "PUT" || r.method == "PATCH")
@@ -323,6 +365,12 @@ struct Pacer
     {
       if (off >= rx.size()) { atBoundary = true; return; }
       atBoundary = false;
+      if (rx.compare(off, std::min<size_t>(7, rx.size() - off), std::string("HTTP/1.").substr(0, std::min<size_t>(7, rx.size() - off))) != 0)
+      {
+        size_t nx = rx.find("HTTP/1.", off + 1); // stray bytes: skip to the next status line, if any yet
+        if (nx == std::string::npos) return;
+        off = nx;
+      }
       size_t he = rx.find("\r\n\r\n", off);
       if (he == std::string::npos) return;
       int status = 0;
@@ -462,6 +510,8 @@ static void runConn(Conn &c, int port, const Timeouts &to)
     {
       pc.update(c.rx);
       if (pc.count >= sent && pc.atBoundary) break;
+      // everything answered but stray bytes at the end and nothing more arriving: go on
+      if (pc.count >= sent && vf::nowNs() - lastProgress > uint64_t(to.settleMs) * 2000000ull) break;
       if (!readStep(50)) { done = true; break; }
       if (vf::nowNs() - lastProgress > uint64_t(to.silenceMs) * 1000000ull) { c.stop = "silence"; done = true; break; }
     }
